@@ -16,7 +16,7 @@ RULE = ('chains of <=4 commands over {Continue(f,*a,**k), Wait(f,msg,data)+resum
         'terminal command was judged')
 ASSUMPTIONS = ['arguments are JSON-representable values (so equality after a pickle round trip is value equality)',
                'reference interpreter written from the property statement']
-REQUIRED = ['mutating_chains', 'continuations', 'kwargs_checked', 'resume_with_value', 'resume_without_value', 'restored_runs', 'terminal/finished', 'terminal/killed',
+REQUIRED = ['resume_with_pause', 'mutating_chains', 'continuations', 'kwargs_checked', 'resume_with_value', 'resume_without_value', 'restored_runs', 'terminal/finished', 'terminal/killed',
             'terminal/excepted', 'unsuccessful']
 BOUNDS = {'quick': 'all 2-command chains over the shape alphabet + 300 random chains of length 3-4; restore: all boundaries at once and each singly',
           'thorough': '3000 random chains, every subset of <=2 boundaries'}
@@ -67,6 +67,10 @@ def gen_cases(tier, seed):
             crash_sets += [list(c) for c in itertools.combinations(range(nb), 2)]
         for cs in crash_sets:
             yield {'program': prog, 'resumes': resumes, 'crash': cs, 'ci': ci}
+        if resumes:
+            # a pause request arriving in the same loop iteration as the resume (before / after it), played afterwards
+            for mode in ('pause-resume', 'resume-pause'):
+                yield {'program': prog, 'resumes': resumes, 'crash': [], 'ci': ci, 'resume_mode': mode}
 
 
 def run_case(case):
@@ -78,17 +82,17 @@ def run_case(case):
         has, val = resumes[j] if j < len(resumes) else [True, 'extra']
         return [copy.deepcopy(val)] if has else []
 
-    r = persist.run_with_crashes(lambda loop: cls(loop=loop), case['crash'], resume_for_wait)
+    r = persist.run_with_crashes(lambda loop: cls(loop=loop), case['crash'], resume_for_wait, resume_mode=case.get('resume_mode', 'plain'))
     obs = {'continuations': 0, 'kwargs_checked': 0, 'resume_with_value': 0, 'resume_without_value': 0, 'restored_runs': 0, 'terminal': {},
-           'unsuccessful': 0}
+           'unsuccessful': 0, 'resume_with_pause': int(bool(case.get('resume_mode')))}
     if r.get('inconclusive'):
-        return {'viol': [], 'obs': obs, 'inconclusive': r['inconclusive'], 'key': [prog, case['crash']], 'nontrivial': False}
+        return {'viol': [], 'obs': obs, 'inconclusive': r['inconclusive'], 'key': [prog, case['crash'], case.get('resume_mode')], 'nontrivial': False}
     exp = programs.expected_run(prog, [tuple(x) for x in resumes])
     got = [[t[1], t[4], t[5]] for t in r['trace'] if t[0] == 'enter']
     viol = []
     V = judges.V
     shape = '>'.join(_shape(s['ret']) for s in prog['steps'])
-    mode = 'restored' if case['crash'] else 'plain'
+    mode = 'restored' if case['crash'] else case.get('resume_mode', 'plain')
     if got != exp['enters']:
         # locate first differing continuation
         k = next((i for i, (g, e) in enumerate(zip(got, exp['enters'])) if g != e), min(len(got), len(exp['enters'])))
@@ -121,7 +125,7 @@ def run_case(case):
         obs['resume_with_value' if has else 'resume_without_value'] += 1
     obs['restored_runs'] = 1 if r['restores'] else 0
     obs['mutating_chains'] = int(bool(prog.get('mutate_args')) and bool(r['restores']))
-    res = {'viol': viol, 'obs': obs, 'key': [prog, case['crash']], 'nontrivial': len(got) > 1 or bool(obs['terminal'])}
+    res = {'viol': viol, 'obs': obs, 'key': [prog, case['crash'], case.get('resume_mode')], 'nontrivial': len(got) > 1 or bool(obs['terminal'])}
     res['sample'] = {'chain': [s['ret'] for s in prog['steps']], 'resumes': resumes, 'crash_points': case['crash'], 'received': got,
                      'final': [r['views']['state'], r['views']['result']], 'restores': r['restores']}
     return res
